@@ -134,6 +134,27 @@ pub fn step_at(e: &Envelope, st: &str) -> Option<Envelope> {
     }
 }
 
+/// a generator whose every 64-bit output is one constant (bc-rand's range selection multiplies the output by the width of the range
+/// and keeps the high word: `1 << 32` selects the low end of any range narrower than 2^32, `u64::MAX` the high end)
+pub struct ConstRng(pub u64);
+impl rand_core::RngCore for ConstRng {
+    fn next_u32(&mut self) -> u32 { self.0 as u32 }
+    fn next_u64(&mut self) -> u64 { self.0 }
+    fn fill_bytes(&mut self, dest: &mut [u8]) { let b = self.0.to_be_bytes(); for (i, d) in dest.iter_mut().enumerate() { *d = b[i % 8] ^ (i as u8); } }
+    fn try_fill_bytes(&mut self, dest: &mut [u8]) -> Result<(), rand_core::Error> { self.fill_bytes(dest); Ok(()) }
+}
+impl rand_core::CryptoRng for ConstRng {}
+impl bc_rand::RandomNumberGenerator for ConstRng {}
+
+/// the length of the salt `add_salt_using` adds under `ConstRng(k)`
+pub fn salt_len_under(e: &Envelope, k: u64) -> Option<usize> {
+    let before: HashSet<Digest> = e.assertions().iter().map(|a| a.digest().into_owned()).collect();
+    let salted = guarded(|| e.add_salt_using(&mut ConstRng(k))).ok()?;
+    let fresh: Vec<Envelope> = salted.assertions_with_predicate(known_values::SALT).into_iter().filter(|a| !before.contains(&a.digest().into_owned())).collect();
+    if fresh.len() != 1 { return None; }
+    fresh[0].as_object()?.extract_subject::<bc_components::Salt>().ok().map(|s| s.len())
+}
+
 pub fn path_at(e: &Envelope, path: &str) -> Option<Envelope> {
     let mut cur = e.clone();
     for st in path.split('/') { cur = step_at(&cur, st)?; }
@@ -517,6 +538,9 @@ impl Machine {
             ["digest", e] => dhex(&self.env(e)?.digest()),
             ["bytes", e] => hex::encode(self.env(e)?.tagged_cbor().to_cbor_data()),
             ["ur", e] => self.env(e)?.ur_string(),
+            // the closed range `add_salt_using` asks its generator for: the lengths of the salts it adds under a generator that makes
+            // the range selection come out at the low end and one that makes it come out at the high end
+            ["saltrange", e] => { let e = self.env(e)?; match (salt_len_under(&e, 1u64 << 32), salt_len_under(&e, u64::MAX)) { (Some(lo), Some(hi)) => format!("{} {}", lo, hi), _ => "none".into() } }
             ["sdigest", e] => dhex(&self.env(e)?.structural_digest()),
             ["count", e] => self.env(e)?.elements_count().to_string(),
             ["walk", e, mode] => {
